@@ -363,19 +363,38 @@ func (c *Ctx) ruleE1(rule string) {
 		}
 		okFn := core.Call.StaticCallee().Name() == row[1]
 		okArgs := operand(core.Call.Args[0], "MathExpressionLeft") && operand(core.Call.Args[1], "MathExpressionRight")
-		// the result of that call is what is returned
+		// the result of that call is what is returned: at every return the call can reach
+		// whose value is reflect.ValueOf(..), the wrapped value, on executions through this
+		// call, is its first result (directly, or through a result variable shared by the
+		// operators)
 		okRet := false
+		bad := false
 		eachInstr(f, func(in ssa.Instruction) {
-			if r, ok := in.(*ssa.Return); ok && x.edgeDominated(t.iff.Block(), t.edge)[r.Block()] {
-				for _, pv := range x.PossibleValues(r.Results[0]) {
-					if vo, ok := pv.V.(*ssa.Call); ok && fnIs(vo.Call.StaticCallee(), "reflect", "", "ValueOf") {
-						if ex, ok := x.Unwrap(vo.Call.Args[0]).(*ssa.Extract); ok && ex.Tuple == ssa.Value(core) && ex.Index == 0 {
-							okRet = true
-						}
+			r, ok := in.(*ssa.Return)
+			if !ok || r.Block() == f.Recover {
+				return
+			}
+			if _, reach := pathExists(f, core, func(i2 ssa.Instruction) bool { return i2 == in }, nil); !reach {
+				return
+			}
+			for _, rv := range x.valuesVia(f, core, r, r.Results[0]) {
+				vo, ok := rv.(*ssa.Call)
+				if !ok || !fnIs(vo.Call.StaticCallee(), "reflect", "", "ValueOf") {
+					continue
+				}
+				if c0, isC := x.Unwrap(vo.Call.Args[0]).(*ssa.Const); isC && c0.IsNil() {
+					continue // reflect.ValueOf(nil) accompanies an error
+				}
+				for _, w := range x.valuesVia(f, core, vo, x.Unwrap(vo.Call.Args[0])) {
+					if ex, ok := x.Unwrap(w).(*ssa.Extract); ok && ex.Tuple == ssa.Value(core) && ex.Index == 0 {
+						okRet = true
+					} else {
+						bad = true
 					}
 				}
 			}
 		})
+		okRet = okRet && !bad
 		c.Check(rule, key, okField && okFn && okArgs && okRet, core.Pos(), "%q must be core.%s(left value, right value), tested on %s, result returned: calls core.%s, field ok %v, operands in order %v, result returned %v", t.lit, row[1], row[0], core.Call.StaticCallee().Name(), okField, okArgs, okRet)
 	}
 	for _, l := range lits {
@@ -1173,32 +1192,32 @@ func (c *Ctx) ruleE5(rule string) {
 		}
 		okVals := okP
 		if okP {
+			// every value handed to AcceptId is the parsed number, used only where the parse
+			// error is nil, or the constant 0, used only where it is not (inside the branch, or
+			// through a variable assigned there)
 			nId, nZero := 0, 0
+			errNil, errNotNil := x.nilEdges(f, func(v ssa.Value) bool {
+				ex, ok := x.Origin(v).(*ssa.Extract)
+				return ok && ex.Tuple == ssa.Value(pi) && ex.Index == 1
+			})
 			eachInstr(f, func(in ssa.Instruction) {
 				if call, ok := in.(*ssa.Call); ok && call.Call.IsInvoke() && call.Call.Method.Name() == "AcceptId" {
-					v := x.Origin(call.Call.Args[0])
-					errKnownNonNil, errKnownNil := false, false
-					for _, g := range x.GuardsOf(call.Block()) {
-						if s, neq, ok := nilCheck(g.Cond); ok {
-							if ex, ok := x.Origin(s).(*ssa.Extract); ok && ex.Tuple == ssa.Value(pi) && ex.Index == 1 {
-								if neq == g.Pol {
-									errKnownNonNil = true
-								} else {
-									errKnownNil = true
-								}
-							}
+					for _, pv := range x.PossibleValues(call.Call.Args[0]) {
+						if pv.V == nil || pv.Outside {
+							okVals = false
+							continue
 						}
-					}
-					if k, isK := constInt(v); isK && k == 0 && errKnownNonNil {
-						nZero++
-					} else if ex, isEx := v.(*ssa.Extract); isEx && ex.Tuple == ssa.Value(pi) && ex.Index == 0 && errKnownNil {
-						nId++
-					} else {
-						okVals = false
+						if k, isK := constInt(pv.V); isK && k == 0 && x.reachesOnlyVia(f, pi, pv, call, errNotNil) {
+							nZero++
+						} else if ex, isEx := pv.V.(*ssa.Extract); isEx && ex.Tuple == ssa.Value(pi) && ex.Index == 0 && x.reachesOnlyVia(f, pi, pv, call, errNil) {
+							nId++
+						} else {
+							okVals = false
+						}
 					}
 				}
 			})
-			okVals = okVals && nId == 1 && nZero == 1
+			okVals = okVals && nId >= 1 && nZero >= 1
 		}
 		c.Check(rule, "ExitAtId", okVals, f.Pos(), "@id must be ParseInt(rule name, 10, 64), and 0 when the name is not a decimal integer")
 	}
